@@ -75,7 +75,23 @@ func (g *gen) operand() *xp.E {
 		return xp.Num([]string{"1", "42", "0", "1.5", "007", "9223372036854775808", "18446744073709551615", "10000000000000000000", "4294967296", "99999999999999999999999", "9007199254740993", "0.000001"}[g.pick(12, "num")])
 	case 2:
 		// function result over literals / numbers / one operand path
-		switch g.pick(7, "fn") {
+		switch g.pick(8, "fn") {
+		case 7:
+			// a boolean function result (no comparison inside): the key's value is "true" or "false"
+			switch g.pick(6, "boolfn") {
+			case 0:
+				return xp.Call("true")
+			case 1:
+				return xp.Call("false")
+			case 2:
+				return xp.Call("not", xp.Call("false"))
+			case 3:
+				return xp.Call("contains", xp.Lit("abc"), xp.Lit("b"))
+			case 4:
+				return xp.Call("starts-with", xp.Call("string", xp.PathE(g.operandPath(true))), xp.Lit("v"))
+			default:
+				return xp.Call("boolean", xp.Lit("x"))
+			}
 		case 6:
 			// a function result whose argument holds a comparison of its own
 			if fw.Known("c02.comparison-inside-predicate-operand") {
